@@ -13,6 +13,7 @@ type Entry struct {
 	Title    string
 	Run      func(*core.Ledger)
 	Thorough func(*core.Ledger) // extra obligations for the thorough tier
+	Examples bool               // thorough tier also loads the examples module's generated package
 	Meta     core.PropertyMeta
 }
 
